@@ -127,7 +127,7 @@ Fixpoint as_id (e : env) (escape : bool) (t : ty) : rstr :=
   | TPtr x => s2r "p"%string ++ title (as_id e false x)
   | TMap k v => s2r "map"%string ++ title (as_id e false k ++ title (as_id e false v))
   | TStruct _ _ => s2r "unnamed"%string
-  | TOther 2 _ => s2r "chan"%string
+  | TOther 2 _ => if escape then s2r "xchan"%string else s2r "chan"%string
   | TOther _ _ => s2r "unknown"%string
   end.
 Definition type_id (e : env) (t : ty) : rstr := as_id e true t.
